@@ -121,6 +121,8 @@ func treeValue(r Req, variant bool) xpath.Datum {
 		return xpath.NewDatumSliceDatum(lits("1", "x", " 2.5 "))
 	case "vm2":
 		return xpath.NewDatumSliceDatum(lits("", "7"))
+	case "vone":
+		return xpath.NewDatumSliceDatum(lits("0"))
 	case "vempty":
 		return xpath.NewLiteralDatum("")
 	case "vnum":
